@@ -94,6 +94,11 @@ func exitHook(int) {
 	buf := make([]byte, 8192)
 	n := runtime.Stack(buf, false)
 	if bytes.Contains(buf[:n], []byte("mux.(*conn).reader")) {
+		// the client's reader gave up (e.g. refused a frame): the connection
+		// is lost for every session on it
+		if ac, ok := readers.Load(goid(buf[:n])); ok {
+			ac.(*appConn).lost()
+		}
 		runtime.Goexit()
 	}
 	msg := logCap.fatal()
@@ -104,6 +109,19 @@ func exitHook(int) {
 		fatalMu.Unlock()
 	}
 	panic(fatalExit{msg})
+}
+
+// readers maps the goroutine id of a client mux reader to its connection.
+var readers sync.Map
+
+// goid extracts the goroutine number from a runtime.Stack dump.
+func goid(stack []byte) string {
+	// "goroutine 123 [running]:"
+	f := bytes.Fields(stack[:min(len(stack), 40)])
+	if len(f) >= 2 {
+		return string(f[1])
+	}
+	return ""
 }
 
 var fatalMu sync.Mutex
@@ -296,7 +314,8 @@ type appConn struct {
 	dead chan struct{}
 	once sync.Once
 	// closing is set by the harness before it closes the connection itself
-	closing atomic.Bool
+	closing  atomic.Bool
+	readerID string // goroutine of the client's mux reader
 }
 
 func (ac *appConn) Write(p []byte) (int, error) {
@@ -316,6 +335,11 @@ func (ac *appConn) Write(p []byte) (int, error) {
 }
 
 func (ac *appConn) Read(p []byte) (int, error) {
+	if ac.readerID == "" { // only the mux reader goroutine reads
+		buf := make([]byte, 64)
+		ac.readerID = goid(buf[:runtime.Stack(buf, false)])
+		readers.Store(ac.readerID, ac)
+	}
 	if n := ac.rpat.next(len(p)); n < len(p) {
 		p = p[:n]
 	}
@@ -326,7 +350,14 @@ func (ac *appConn) Read(p []byte) (int, error) {
 	return n, err
 }
 
-func (ac *appConn) lost() { ac.once.Do(func() { close(ac.dead) }) }
+func (ac *appConn) lost() {
+	ac.once.Do(func() {
+		close(ac.dead)
+		if ac.readerID != "" {
+			readers.Delete(ac.readerID)
+		}
+	})
+}
 
 // ---------------------------------------------------------------- server, client
 
@@ -445,7 +476,7 @@ const errLost = "LOST CONNECTION"
 
 // errHang: no response within the (generous) watchdog.
 const errHang = "HANG"
-const watchdog = 120 * time.Second
+const watchdog = 60 * time.Second
 
 // call runs one client request. A request on a connection that the server
 // closes never returns in the client (its process exits in the reader), so
